@@ -66,7 +66,7 @@ class RestartPBESolver(MetaPBESolver):
             self._enumerator = enumerator
             self._init_task_solving_(task, self._enumerator, timeout)
             gen = self._enumerator.generator()
-            program = next(gen)
+            program = next(gen, None)
             while program is not None:
                 time = c.elapsed_time()
                 if time >= timeout:
@@ -91,7 +91,7 @@ class RestartPBESolver(MetaPBESolver):
                     self._restarts += 1
                     self._enumerator = self._restart_(self._enumerator)
                     gen = self._enumerator.generator()
-                program = next(gen)
+                program = next(gen, None)
 
     def _should_restart_(self) -> bool:
         return self.restart_criterion(self)
